@@ -123,7 +123,7 @@ func (g *gen) withID(s *Sch) *Sch {
 
 var fieldNames = []string{"a", "b", "c", "d"}
 var words = []string{"a", "b", "ab", "x.y", "zz", "A", "Q"}
-var intKinds = []string{"int", "int", "int", "int", "i64", "i8", "u8", "i16", "u32", "uint"}
+var intKinds = []string{"int", "int", "int", "int", "i64", "i8", "u8", "i16", "u32", "uint", "i32", "u16", "u64"}
 
 func (g *gen) small() int64 { return int64(g.r.Intn(6)) }
 
@@ -625,6 +625,14 @@ func (g *gen) numCands(s *Sch, unit int64) []*J {
 		case "u32":
 			add(4 * 4294967295)
 			add(4 * 4294967296)
+		case "i32":
+			add(4 * 2147483647)
+			add(4 * 2147483648)
+			add(-4 * 2147483648)
+			add(-4 * 2147483649)
+		case "u16":
+			add(4 * 65535)
+			add(4 * 65536)
 		}
 	}
 	out = append(out, jStr("1"), jNull(), jBool(true))
